@@ -712,6 +712,22 @@ class Executor:
             # list += list mutates in place
             self.list_extend(cur, rhs, st)
             return
+        if isinstance(cur, Num) and cur.arr is None and isinstance(st.target, ast.Name) and isinstance(cur.meta.get("index_of"), Num) and cur.meta.get("index") is not None:
+            # `view = a[lo:hi]; view op= e` on a basic-indexing view of an array the analysed code allocated: numpy updates
+            # the rows of `a` in place - the same store as `a[lo:hi] op= e` - and the name stays bound to the view
+            base, idx = cur.meta["index_of"], cur.meta["index"]
+            root = base
+            while root.arr is None and isinstance(root.meta.get("alias_of"), Num):
+                root = root.meta["alias_of"]
+            basic = all(isinstance(c, SliceV) or (isinstance(c, Num) and c.shape == () and c.cond is None and c.dtype != "bool") for c in idx)
+            if basic and root.arr is not None:
+                fresh = self.index_num(base, idx, st)
+                v = self.binop(st.op, fresh, rhs, st)
+                self.store_sub(base, idx, v, st, frame, aug=True)
+                if isinstance(v, Num):
+                    v = Num(v.nf, v.shape, v.dtype, v.pytype, cond=v.cond, meta=dict(v.meta, index_of=base, index=idx))
+                frame.env[st.target.id] = v
+                return
         v = self.binop(st.op, cur, rhs, st)
         if isinstance(cur, Num) and cur.arr is not None and isinstance(st.target, ast.Name):
             # in-place update of a whole allocated array
@@ -767,6 +783,9 @@ class Executor:
                 out.append(self.index_num(v, [Num(NF.const(i), (), "int")], node))
             return out
         if isinstance(v, OpaqueV):
+            if v.meta.get("kind") == "rawshape" and n >= 2:
+                # `n, p = X.shape` on the un-normalised argument: a 1-D array / a Series has one dimension only
+                self.emit("raw_use", node, what=f"unpacking .shape into {n} names (a univariate series or 1-D array has one dimension only)", value=v.meta.get("of"))
             return [OpaqueV(f"{v.key}[{i}]") for i in range(n)]
         if isinstance(v, ListV) and v.opaque:
             return [self.list_elem(v, node) for _ in range(n)]
@@ -1732,6 +1751,32 @@ class Executor:
         return None
 
     def contains(self, container, item, node) -> Cond:
+        # `a.dtype.kind in "iu"`: numpy's one-letter dtype kinds.  "iu" is the exact test for a plain integer array (it
+        # excludes bool, float, object AND timedelta64, which np.issubdtype(., np.integer) lets through); it is given the
+        # key of the integer test plus the marker [kind:...] so that rules reading the dtype fact see one condition
+        if isinstance(item, OpaqueV) and item.meta.get("attr") == "kind" and isinstance(item.meta.get("recv"), OpaqueV) and item.meta["recv"].meta.get("kind") == "dtype":
+            chars = None
+            if isinstance(container, StrV) and container.s is not None:
+                chars = set(container.s)
+            elif isinstance(container, (TupleV, ListV)) and not getattr(container, "opaque", False) and all(isinstance(x, StrV) and x.s is not None and len(x.s) == 1 for x in container.items):
+                chars = {x.s for x in container.items}
+            of = item.meta["recv"].meta.get("of")
+            if chars is not None:
+                kd = of.dtype if isinstance(of, Num) else None
+                if kd == "float":
+                    return Cond.const("f" in chars)
+                if kd == "bool":
+                    return Cond.const("b" in chars)
+                if kd == "int" and {"i", "u"} <= chars:
+                    return Cond.const(True)
+                if kd == "int" and not ({"i", "u"} & chars):
+                    return Cond.const(False)
+                tag = "".join(sorted(chars))
+                if chars == {"i", "u"}:
+                    return Cond("opq", f"issubdtype({valkey(of)},numpy.integer)[kind:{tag}]")
+                if chars == {"i"}:
+                    return Cond("opq", f"issubdtype({valkey(of)},numpy.signedinteger)[kind:{tag}]")
+                return Cond("opq", f"dtypekind({valkey(of)},{tag})")
         if isinstance(container, (TupleV, ListV)) and not getattr(container, "opaque", False):
             if isinstance(item, StrV) and item.s is not None and all(isinstance(x, StrV) and x.s is not None for x in container.items):
                 return Cond.const(item.s in [x.s for x in container.items])
